@@ -25,7 +25,7 @@ pub fn prop() -> Prop {
          thread in a child process: ast::Document::parse, validate_standalone_executable, to_schema_validate, \
          Schema::parse, Schema::builder (adopt_orphan_extensions, ignore_builtin_redefinitions), Schema::validate, \
          ExecutableDocument::parse + validate against the text's own schema when valid (else a fixed schema), \
-         parse_mixed_validate, to_string of every result, full-introspection partial_execute on valid schemas, introspection::check_max_depth and partial_execute on every document that validates, and for \
+         parse_mixed_validate, to_string of every result, full-introspection partial_execute on valid schemas, introspection::check_max_depth and partial_execute on every document that validates, DiagnosticList::merge of the lists seen (both ways round), and for \
          every diagnostic Display, Debug with forced ANSI colours, to_report, to_json + serde, line_column_range: all \
          return (no panic, no signal; in lists of more than 160 diagnostics the renderings cover a spread sample of ~64, \
          to_json and line_column_range cover all). Every DiagnosticList is sorted by Option<(FileId, offset)> (unlocated first), \
@@ -137,6 +137,9 @@ pub fn gen_case(c: &mut Choices, tier: Tier) -> Case {
 
 #[derive(Default)]
 pub struct Obs {
+    /// a few of the diagnostic lists seen (merged pairwise at the end: `DiagnosticList::merge` documents
+    /// that it sorts the two lists together)
+    pub kept: Vec<DiagnosticList>,
     /// (entry point, panic message, location)
     pub panics: Vec<(&'static str, String, String)>,
     /// (signature suffix, detail)
@@ -177,6 +180,9 @@ const RENDER_ALL_UP_TO: usize = 160;
 /// through another entry point).
 fn inspect_list(entry: &'static str, list: &DiagnosticList, obs: &mut Obs, render: bool) -> bool {
     obs.lists += 1;
+    if entry != "DiagnosticList::merge" && obs.kept.len() < 3 && !list.is_empty() && list.len() <= 150 {
+        obs.kept.push(list.clone());
+    }
     let mut limit = false;
     let mut prev: Option<Option<(apollo_compiler::parser::FileId, usize)>> = None;
     let mut files = std::collections::BTreeSet::new();
@@ -496,6 +502,19 @@ pub fn run_all(case: &Case) -> Obs {
                     obs.deep_introspection_executed = true;
                 }
             });
+        }
+    }
+    // 7. merged lists are sorted together, whichever list receives the other
+    let kept = std::mem::take(&mut obs.kept);
+    for i in 0..kept.len() {
+        for j in 0..kept.len() {
+            if i != j {
+                entry!(obs, "DiagnosticList::merge", {
+                    let mut m = kept[i].clone();
+                    m.merge(kept[j].clone());
+                    inspect_list("DiagnosticList::merge", &m, &mut obs, false);
+                });
+            }
         }
     }
     obs
